@@ -16,7 +16,9 @@ def pair_table(src, names):
     """(word, name) pairs whose similarity the harness reports as the oracle of the suggestion model: the words that are
     not names (the misspellings) first; (pairs, truncated)"""
     names = sorted(set(names))
-    words = sorted(set(WORD.findall(src.replace("r#", ""))), key=lambda w: (w in names, w))     # `r#type` reads `type`
+    plain = src.replace("r#", "")                                                                # `r#type` reads `type`
+    # (`a ::b` is the path `a::b` to the parser: a dropped comma can glue two names into one)
+    words = sorted(set(WORD.findall(plain)) | set(WORD.findall(re.sub(r"\s*::\s*", "::", plain))), key=lambda w: (w in names, w))
     return [(w, n) for w in words for n in names][:PAIR_CAP], len(words) * len(names) > PAIR_CAP
 
 
